@@ -160,3 +160,72 @@ Theorem line_tree_text sp t : forallb is_blankc sp = true -> line_tree (text sp 
 Proof.
   intros Hsp. unfold text. rewrite line_tree_render; [rewrite strip_lit; reflexivity|exact Hsp|apply lit_leaves_ok].
 Qed.
+
+(* ------------------------------------------------------------------ *)
+(** * Integer mode on the text of a tree of numbers *)
+
+Lemma has_dot_app x y : has_dot (x ++ y) = has_dot x || has_dot y.
+Proof. apply existsb_app. Qed.
+Lemma has_dot_cons c x : has_dot (c :: x) = (c =? 46) || has_dot x.
+Proof. reflexivity. Qed.
+
+Lemma has_dot_class (P : char -> bool) s :
+  (forall c, P c = true -> (c =? 46) = false) -> forallb P s = true -> has_dot s = false.
+Proof.
+  intros HP. induction s as [|c r IH]; [reflexivity|]. cbn [forallb]. intros H.
+  apply andb_true_iff in H as [Hc Hr]. rewrite has_dot_cons, (HP c Hc), (IH Hr). reflexivity.
+Qed.
+
+Lemma blank_nodot c : is_blankc c = true -> (c =? 46) = false.
+Proof.
+  unfold is_blankc. intros H. apply orb_true_iff in H as [H|H]; apply N.eqb_eq in H; subst; reflexivity.
+Qed.
+Lemma digit_nodot c : is_digit c = true -> (c =? 46) = false.
+Proof.
+  unfold is_digit. intros H. apply andb_true_iff in H as [H _]. apply N.leb_le in H. apply N.eqb_neq. lia.
+Qed.
+
+Lemma str_tail_app sp a b : str_tail sp (a ++ b) = str_tail sp a ++ str_tail sp b.
+Proof.
+  induction a as [|x r IH]; [reflexivity|]. cbn [app str_tail]. rewrite IH, <- !app_assoc. reflexivity.
+Qed.
+
+Lemma str_seq_join sp a o b : a <> [] -> b <> [] ->
+  str_seq sp (a ++ POp o :: b) = str_seq sp a ++ sp ++ [op_char o] ++ sp ++ str_seq sp b.
+Proof.
+  destruct a as [|x r]; [contradiction|]. destruct b as [|y r2]; [contradiction|]. intros _ _.
+  cbn [app str_seq]. rewrite str_tail_app. cbn [str_tail str_pair]. rewrite <- !app_assoc. reflexivity.
+Qed.
+
+Lemma par_nodot sp l : has_dot sp = false -> has_dot (str_seq sp l) = false -> has_dot (str_seq sp [PExpr l]) = false.
+Proof.
+  intros Hsp H. cbn [str_seq str_tail]. rewrite app_nil_r, str_pair_expr.
+  rewrite has_dot_cons, !has_dot_app, Hsp, H. reflexivity.
+Qed.
+
+Lemma text_nodot sp t : has_dot sp = false ->
+  render (lit t) <> [] /\ has_dot (str_seq sp (render (lit t))) = false.
+Proof.
+  intros Hsp. induction t as [n|o a [Na Da] b [Nb Db]]; cbn [lit render].
+  - split; [discriminate|]. cbn [str_seq str_tail]. rewrite app_nil_r.
+    apply (has_dot_class is_digit); [exact digit_nodot|apply dec_digits].
+  - set (A := if std_needs_l o (lit a) then [PExpr (render (lit a))] else render (lit a)).
+    set (B := if std_needs_r o (lit b) then [PExpr (render (lit b))] else render (lit b)).
+    assert (HA : A <> [] /\ has_dot (str_seq sp A) = false).
+    { subst A. destruct (std_needs_l o (lit a)); [split; [discriminate|apply par_nodot; assumption]|split; assumption]. }
+    assert (HB : B <> [] /\ has_dot (str_seq sp B) = false).
+    { subst B. destruct (std_needs_r o (lit b)); [split; [discriminate|apply par_nodot; assumption]|split; assumption]. }
+    destruct HA as [NA DA], HB as [NB DB]. split.
+    + destruct A; [contradiction|discriminate].
+    + rewrite str_seq_join by assumption. rewrite !has_dot_app, DA, DB, Hsp.
+      destruct o; reflexivity.
+Qed.
+
+Theorem run_calculator_text sp t :
+  forallb is_blankc sp = true -> run_calculator (text sp t) = RInt (Ok (ref_eval (dtree t))).
+Proof.
+  intros Hsp. unfold text. rewrite <- strip_lit.
+  assert (Hd : has_dot sp = false) by (apply (has_dot_class is_blankc); [exact blank_nodot|exact Hsp]).
+  apply run_calculator_render; [exact Hsp|apply lit_leaves_ok|].
+  unfold render_str. rewrite !has_dot_app, Hd, (proj2 (text_nodot sp t Hd)). reflexivity.
+Qed.
